@@ -177,13 +177,7 @@ add("C11", "C11-ir-level-division-floors",
 
 
 # ---- C16
-add("C16", K1, K1_WHAT, "K1",
-    case([["input", "x", "signal-liquid", -1],
-          ["for", "i", ["range", 4, 8, None],
-           [["sig", "kv", ["t", "signal-right-parenthesis", ["b", "*", ["v", "i"], ["n", 4]]]],
-            ["place", "lamp", "small-lamp", ["b", "*", ["v", "i"], ["n", 2]], ["n", 20], None],
-            ["set", "lamp", "enable", ["c", ">", ["b", "+", ["v", "x"], ["v", "kv"]], ["n", 17]]]]]],
-         "body_literal_nest1", nval=2))
+add("C16", K1, K1_WHAT + " (in the loop build and not, or differently, in the unrolled one: the two builds have different layouts)", "K1", witness("C16-K1"))
 
 
 # ---- C17
